@@ -41,7 +41,8 @@ def judgeRetry (r : Nat) (outs : List Outcome) (b : Bytes) (impl : List String) 
     if offs.length > r + 1 then fails := "C07:more-attempts-than-budget" :: fails
     match stream, kv impl "via" with
     | some s, some v =>
-      if (v.splitOn ".").any (fun t => t ≠ toString s) then fails := "C16:retried-write-leaves-on-another-stream" :: fails
+      if (v.splitOn ".").any (fun t => t ≠ toString s) then
+        fails := "C19:retried-reply-leaves-on-another-stream" :: "C16:retried-write-leaves-on-another-stream" :: fails
     | _, _ => pure ()
     return { model := modelOut, fails := fails.reverse,
              tags := [s!"attempts={res.offered.length} err={showEK res.err} partial={decide (res.accepted.any (fun a => a.length > 0 ∧ a.length < b.length))}"] }
